@@ -6,12 +6,13 @@
 // encoding/xml does not expose).
 //
 // Input : ndjson cases {"id":n,"keep":bool,"in":[bytes]}
-// Output: ndjson, one line per case (see spec/C06Trace.tla):
-//   {id, keep, panic, err, inwf, inwhy, outwf, outwhy, rerr, ein:[ev], eout:[ev], out:[bytes]}
+// Output: two ndjson files with one line per case each:
+//   trace (what TLC reads, see spec/C06Trace.tla): {keep, panic, err, outwf, ein:[ev], eout:[ev]}
+//   meta  (what the driver script reads):          {id, keep, panic, err, inwf, inwhy, outwf, outwhy, rerr, nin, out:[bytes]}
 //   ev = {k:"S"|"E"|"T"|"P"|"D"|"C", d:depth, name:[bytes], attrs:[{n:[bytes], v:[atoms]}], data:[atoms]}
 //   text atoms: byte c from character data, c+1000 when the byte comes from a CDATA section
 //   attribute value atoms: literal byte c, c+1000 when produced by a character/entity reference
-// usage: c06 <cases.ndjson> <trace.ndjson>      |      c06 -show [-keep] <file or ->   (human readable)
+// usage: c06 <cases.ndjson> <trace.ndjson> <meta.ndjson>      |      c06 -show [-keep] <file or ->   (human readable)
 package main
 
 import (
@@ -59,10 +60,21 @@ type Event struct {
 	OutWF  bool      `json:"outwf"`
 	OutWhy string    `json:"outwhy"`
 	RErr   string    `json:"rerr"`
-	EIn    []Ev      `json:"ein"`
-	EOut   []Ev      `json:"eout"`
+	NIn    int       `json:"nin"`
+	EIn    []Ev      `json:"-"`
+	EOut   []Ev      `json:"-"`
 	Out    lib.Bytes `json:"out"`
 	Msg    string    `json:"msg,omitempty"`
+}
+
+// TraceLine is one step of the trace specification.
+type TraceLine struct {
+	Keep  bool   `json:"keep"`
+	Panic bool   `json:"panic"`
+	Err   string `json:"err"`
+	OutWF bool   `json:"outwf"`
+	EIn   []Ev   `json:"ein"`
+	EOut  []Ev   `json:"eout"`
 }
 
 func ints(b []byte, add int) []int {
@@ -411,6 +423,7 @@ func runCase(c Case) Event {
 		ev.EIn = []Ev{} // not in the quantification; keep the line small
 	}
 	ev.RErr = rerr1 + rerr2
+	ev.NIn = len(ev.EIn)
 	return ev
 }
 
@@ -463,16 +476,20 @@ func main() {
 		}
 		return
 	}
-	if len(os.Args) < 3 {
-		lib.Fatal("usage: c06 <cases.ndjson> <trace.ndjson>")
+	if len(os.Args) < 4 {
+		lib.Fatal("usage: c06 <cases.ndjson> <trace.ndjson> <meta.ndjson>")
 	}
 	tw := lib.NewTraceWriter(os.Args[2])
+	mw := lib.NewTraceWriter(os.Args[3])
 	lib.ReadJSONLines(os.Args[1], func(line []byte) {
 		var c Case
 		if err := json.Unmarshal(line, &c); err != nil {
 			lib.Fatal("bad case: %v", err)
 		}
-		tw.Emit(runCase(c))
+		ev := runCase(c)
+		tw.Emit(TraceLine{Keep: ev.Keep, Panic: ev.Panic, Err: ev.Err, OutWF: ev.OutWF, EIn: ev.EIn, EOut: ev.EOut})
+		mw.Emit(ev)
 	})
 	tw.Close()
+	mw.Close()
 }
